@@ -18,7 +18,7 @@ from query_csv, query_dataframe, query_sqlite_to_csv or the command line's run_w
 cache of resolved table paths, no memoising decorator, no function attribute used as storage, no class-level or default-argument container -/
 theorem C16_frontends_no_shared_writes :
     Generated.frontendWrittenOnQueryPath = [] ∧ Generated.frontendClassLevelMutable = [] ∧ Generated.frontendMutableDefaults = [] ∧
-    Generated.frontendSharedInstancesUsed = [] := by
+    Generated.frontendSharedInstancesUsed = [] ∧ Generated.frontendCallerObjectsWritten = [] := by
   decide
 
 end Rbql
